@@ -78,6 +78,9 @@ def main():
     os.makedirs(out_dir, exist_ok=True)
     shutil.copy(patch, os.path.join(out_dir, "patch.diff"))
     shutil.copy(os.path.join(sd, demo), os.path.join(out_dir, os.path.basename(demo)))
+    if os.path.exists(os.path.join(sd, "patch.orig.diff")):
+        shutil.copy(os.path.join(sd, "patch.orig.diff"), os.path.join(out_dir, "patch.orig.diff"))
+        meta["rebased"] = "patch.diff is the sub-agent's change (patch.orig.diff) re-expressed on the current /repo HEAD, because a later fix: commit touched the same lines"
     if os.path.exists(os.path.join(sd, "notes.md")):
         shutil.copy(os.path.join(sd, "notes.md"), os.path.join(out_dir, "notes.md"))
     meta["demonstration"] = {"file": os.path.basename(demo), "place_at": place, "package": pkg, "run": regex}
